@@ -2,7 +2,7 @@
    Everything here is executable Gallina; no proofs. *)
 From Coq Require Import List NArith ZArith String Bool.
 Import ListNotations.
-From UV Require Import Py.Val Py.Str Py.Utf8 Py.Regex Py.UrlLib Gen.Patterns Ural.TrieDict Ural.Utils Ural.HostnameTrieSet Ural.SuffixTrie Ural.Tld Proofs.SuffixTrieFacts Py.Pct Ural.Quote Spec.C14 Gen.Tables Ural.FormatUrl Ural.InferRedirection Ural.Lru Ural.IsUrl Ural.Predicates Ural.Canonicalize Ural.Normalize Ural.Html Ural.Platforms.
+From UV Require Import Py.Val Py.Str Py.Utf8 Py.Regex Py.UrlLib Gen.Patterns Ural.TrieDict Ural.Utils Ural.HostnameTrieSet Ural.SuffixTrie Ural.Tld Proofs.SuffixTrieFacts Py.Pct Ural.Quote Spec.C14 Gen.Tables Ural.FormatUrl Ural.InferRedirection Ural.Lru Ural.IsUrl Ural.Predicates Ural.Canonicalize Ural.Normalize Ural.Html Ural.Platforms Ural.LruVariants.
 Open Scope string_scope.
 
 Definition opt_wrap (o : option val) : val :=
@@ -520,6 +520,19 @@ Definition do_hostnames (arg : val) : val :=
   | _ => vbad
   end.
 
+(* variant stems: arg: env suffix_aware (url ...) -> (canonicalized normalized fingerprinted fingerprinted+strip_suffix), default options *)
+Definition do_variant_stems (arg : val) : val :=
+  match arg with
+  | VL [ev; VB sa; VL urls] =>
+      let e := env_of ev in
+      let t := suffix_trie tt in
+      VL (map (fun u => VL [vres vstrs (canonicalized_lru_stems e t u sa (lit "https") false false);
+                            vres vstrs (normalized_lru_stems e t u sa default_opts);
+                            vres vstrs (fingerprinted_lru_stems e t u sa false);
+                            vres vstrs (fingerprinted_lru_stems e t u sa true)]) (strs_of urls))
+  | _ => vbad
+  end.
+
 (* ---------------- HTML extraction (C17) ---------------- *)
 Definition tbl_of (v : val) : list (str * str) :=
   match v with VL l => flat_map (fun x => match x with VL [VS k; VS r] => [(k, r)] | _ => [] end) l | _ => [] end.
@@ -603,6 +616,7 @@ Definition table : list (str * (val -> val)) :=
     (lit "normalize", do_normalize);
     (lit "fingerprint", do_fingerprint);
     (lit "hostnames", do_hostnames);
+    (lit "variant_stems", do_variant_stems);
     (lit "html", do_html);
     (lit "platform", do_platform) ].
 
